@@ -41,9 +41,9 @@ CLASSES = ["sparse", "aligned", "nearfull", "straddle", "percore", "mixed",
 
 
 def plan(tier):
-    n = 40 if tier == "quick" else 1500
+    n = 250 if tier == "quick" else 12000
     p = [(c, n) for c in CLASSES]
-    p.append(("big", 4 if tier == "quick" else 40))
+    p.append(("big", 8 if tier == "quick" else 300))
     if tier == "thorough":
         p.append(("everything", 1))
     return p
